@@ -362,7 +362,7 @@ pub fn main(args: &Args) -> ! {
     let mut rep = Report::new("C17", args, "fault_enumeration");
     let dl = deadline(if thorough { 1500 } else { 50 });
     let k_mask: u32 = if thorough { 10 } else { 7 };
-    rep.rule = format!("A client holding a session ticket (model TLS, remembered server transport parameters taken from a real earlier handshake) starts its workload before the handshake completes. E3: for every early workload (streams of both directions, finishes, a reset, a stop, empty streams, datagrams, 30 kB exceeding the initial window and more streams than a small limit) x server accepts / rejects early data x Retry or not x accept immediately / only at a later step (early packets wait in the endpoint buffer) x remembered parameters equal / smaller / larger than the new ones, EVERY drop subset of the first K={k_mask} datagrams of both directions is run; E2: every <=k dup/delay/drop deviation in the first datagrams. Oracles: accepted => the server application obtains every early byte exactly once, in order, unaltered, and the workload completes (in-app integrity oracle + completion); rejected => no byte or datagram written early reaches the server application (early writes are salted so they are distinguishable), every early stream answers ClosedStream afterwards, accepted_0rtt() tells the truth, and once the restarted workload completes the connection's stream ids, per-direction counters, data_sent, unacknowledged bytes, peer limits and everything the server application saw equal those of a fresh ticket-less connection running the same workload; accepted with reduced limits => the client ends the connection with PROTOCOL_VIOLATION. Non-trivial = executions whose trace differs from the fault-free one of their configuration; distinct = distinct trace hashes.");
+    rep.rule = format!("A client holding a session ticket (model TLS, remembered server transport parameters taken from a real earlier handshake) starts its workload before the handshake completes. E3: for every early workload (streams of both directions, finishes, a reset, a stop, empty streams, datagrams, 30 kB exceeding the initial window and more streams than a small limit) x server accepts / rejects early data x Retry or not x accept immediately / only at a later step (early packets wait in the endpoint buffer) x remembered parameters equal / smaller / larger than the new ones, EVERY drop subset of the first K={k_mask} datagrams of both directions is run; E2: every <=k dup/delay/drop deviation in the first datagrams. Oracles: accepted => the server application obtains every early byte exactly once, in order, unaltered, and the workload completes (in-app integrity oracle + completion); rejected => no byte or datagram written early reaches the server application (early writes are salted so they are distinguishable), every early stream answers ClosedStream afterwards, accepted_0rtt() tells the truth, and once the restarted workload completes the connection's stream ids, per-direction counters, data_sent, unacknowledged bytes, peer limits and everything the server application saw equal those of a fresh ticket-less connection running the same workload; accepted with reduced limits => the client ends the connection with PROTOCOL_VIOLATION. The quinn crate's side (into_0rtt, ZeroRttRejected from stale early handles, a retry stream reusing the rejected stream's id, delivery of exactly the retried / the early data) is explored as two scenarios under the deterministic executor of harness-async with <=k schedule deviations and merged here. Non-trivial = executions whose trace differs from the fault-free one of their configuration; distinct = distinct trace hashes.");
     // case list
     let mut cfgs: Vec<Case> = vec![];
     for wl in 0..N_WL {
@@ -477,6 +477,31 @@ pub fn main(args: &Args) -> ! {
     }
     rep.exhaustive &= !e2_capped;
     rep.part("e2", json!({"k": k, "alts": format!("{alts:?}"), "executions": e2_execs, "capped": e2_capped, "per_case": per_case}));
+    // the async layer's part: Connecting::into_0rtt, ZeroRttRejected on stale early handles, a fresh
+    // stream reusing the id of a rejected one - explored under the E4 executor (harness-async)
+    match std::env::var("VERIF_VA_BIN") {
+        Err(_) => machinery("VERIF_VA_BIN not set: ./check C17 builds harness-async and passes its path"),
+        Ok(bin) => {
+            let out = std::process::Command::new(&bin).arg("c17").arg("--tier").arg(if thorough { "thorough" } else { "quick" }).output();
+            let out = out.unwrap_or_else(|e| machinery(&format!("cannot run {bin}: {e}")));
+            let text = String::from_utf8_lossy(&out.stdout);
+            let v: Value = text.lines().rev().find_map(|l| serde_json::from_str(l).ok()).unwrap_or_else(|| machinery(&format!("no result from {bin} c17: {}", String::from_utf8_lossy(&out.stderr))));
+            let n = v["executions"].as_u64().unwrap_or(0);
+            if n == 0 {
+                machinery("the async 0-RTT part explored nothing");
+            }
+            rep.evaluations += n;
+            rep.exhaustive &= !v["capped"].as_bool().unwrap_or(true);
+            for viol in v["violations"].as_array().cloned().unwrap_or_default() {
+                rep.violation(Violation {
+                    signature: format!("async:{}", viol["signature"].as_str().unwrap_or("?")),
+                    what: format!("quinn crate under the deterministic executor: {}", viol["what"].as_str().unwrap_or("?")),
+                    replay: json!({"check":"c18","async_replay": viol["replay"], "note": "replay with ./check C18 --replay on a file holding {\"replay\": <async_replay>}"}),
+                });
+            }
+            rep.part("async_layer", v);
+        }
+    }
     rep.sample(json!({"wl":1,"accept":false,"retry":true,"hold":6,"params":"Shrink","mask":"0b101","meaning":"client with a ticket remembering generous limits writes three streams and two datagrams in 0-RTT packets; the server answers with Retry, the application accepts the connection only at step 6, rejects early data and offers smaller limits; datagrams #0 and #2 are lost. Nothing written early may reach the server application and the restarted workload must complete within the new limits, ending in the same state as a fresh connection"}));
     rep.assumptions = vec![
         "model TLS: the server accepts or rejects early data by configuration; any ticket secret is honoured".into(),
